@@ -24,7 +24,7 @@ ASSUMPTIONS = ['vlib/minizodb.py + persistent.PickleCache model the ZODB connect
                'sanitizer build (gcc ASan+UBSan, PYTHONMALLOC=malloc) turns reads of evicted/freed nodes into aborts']
 
 OFAMS = ['OO', 'OI', 'OL', 'OU', 'OQ']
-F32_REMOVING = ('del', 'pop', 'popd', 'popitem', 'remove', 'discard', 'clear')
+F32_REMOVING = ('del', 'pop', 'popd', 'popitem', 'remove', 'discard', 'clear', 'delrun')
 F32_ADDING = ('set', 'add', 'insert', 'setdefault', 'upd', 'update')
 
 
@@ -560,7 +560,8 @@ def run_case(case, ctx):
                 # open finding F32 (pure Python does not protect the nodes it works on) is only *exposed* by a sweep
                 # inside a removing call, or inside an adding call on a container that is a single leaf; only then can
                 # later steps (F32b / F32c) be blamed on it
-                if name in F32_REMOVING or (name in F32_ADDING and not sig.get('multileaf', True)):
+                removing = name in F32_REMOVING or (name == 'upd' and op[1] in ('iand', 'isub', 'ixor'))
+                if removing or (name in F32_ADDING and not sig.get('multileaf', True)):
                     lv.incmp_sweeps += 1
                     sig['f32class'] = True
                 classes.append('sweep:in-comparison:' + name)
